@@ -601,6 +601,25 @@ def check_property(pid, tier='quick', seed=0, witness_hook=None):
         print('VIOLATION property=%s replay=%s' % (pid, fb['path']))
         vio_out.append(fb['obligation'])
         exit_code = 1
+    # bounded supplement (native witnesses through the public API of the real crate): can only ADD a violation
+    supplement = []
+    if witness_hook is not None:
+        try:
+            from . import witness as _w
+            supplement = _w.run_supplements(pid, tier)
+        except Exception as e:  # never let the supplement break the deductive verdict
+            supplement = [{'kind': '-', 'error': repr(e)}]
+    for sres in supplement:
+        if sres.get('found'):
+            rp = os.path.join(REPLAYS, '%s-bounded-%s.json' % (pid, sres['kind']))
+            with open(rp, 'w') as fh:
+                json.dump({'property': pid, 'obligation': 'bounded-supplement(%s)' % sres['kind'], 'bounded': True,
+                           'verifier': 'native witness search on the real crate (bounded stand-in; the deductive obligations did not fail)',
+                           'verifier_message': sres.get('explain'), 'counterexample': sres}, fh, indent=1)
+            print('FAILED OBLIGATION bounded-supplement(%s): %s' % (sres['kind'], (sres.get('explain') or '')[:200]))
+            print('VIOLATION property=%s replay=%s' % (pid, rp))
+            vio_out.append('bounded-supplement(%s)' % sres['kind'])
+            exit_code = 1
     if exit_code == 0 and undecided:
         for u in undecided:
             print('UNDECIDED property=%s %s' % (pid, u))
@@ -637,6 +656,7 @@ def check_property(pid, tier='quick', seed=0, witness_hook=None):
             'violations': vio_out,
             'undecided': undecided,
             'extra_runs': extra_runs,
+            'bounded_supplement': [{k: v for k, v in x.items() if k in ('kind', 'found', 'evaluations', 'explain', 'error', 'tried_archives', 'wall_s')} for x in supplement],
             'mutants_expected': len([m for m in mutant_results if m['result'] != 'not-applicable']),
             'mutants_detected': len([m for m in mutant_results if m['result'] == 'detected']),
             'mutants': mutant_results,
